@@ -76,29 +76,7 @@ def check(ctx):
         w = m_call(a[0], name='wrap_envelope', self_suffix='Envelope') or m_call(a[0], name='new_wrapped')
         return w is not None and w[0] == P1
     expect('C02.5', 'encrypt', enc_pred, 'encrypt_subject(wrap(self), key)', 'encrypt')
-    # replace_subject: fold of the receiver's assertions onto the new subject through the checked add path
-    b = F.method1('Envelope', 'replace_subject')
-    if b is None:
-        ctx.lost('C02.5', 'Envelope::replace_subject')
-    else:
-        tb = TermBuilder(F, b)
-        rt = strip_sites(tb.return_term())
-        a = m_call(rt, name='fold', trait='Iterator')
-        good = False
-        if a is not None and a[1] == ('param', 2) and a[2][0] == 'closure':
-            src = elem_source(a[0])
-            s = m_call(src, name='assertions', self_suffix='Envelope')
-            cb = F.closure(a[2][1])
-            if s is not None and s[0] == P1 and cb is not None:
-                crt = strip_sites(TermBuilder(F, cb).return_term())
-                u = m_call(crt, name='unwrap') or m_call(crt, name='expect')
-                inner = u[0] if u else crt
-                ad = m_call(inner, name='add_assertion_envelope', self_suffix='Envelope')
-                good = ad is not None and ad[0] == ('param', 2) and ad[1] == ('param', 3)
-        if good:
-            ctx.ok('C02.5', ctx.site(b), 'replace_subject = fold(assertions(self), new_subject, add_assertion_envelope)', sample=fmt(rt))
-        else:
-            ctx.fail('C02.5', ctx.site(b), 'replace_subject is not a fold of the receiver\'s assertions onto the new subject: %s' % fmt(rt), key='C02.5|replace_subject')
+    obscure.check_replace_subject(ctx, 'C02.5')
     # encrypt_subject delegates to encrypt_subject_opt unchanged
     if ctx.has('encrypt'):
         b = F.method1('Envelope', 'encrypt_subject')
